@@ -4,3 +4,4 @@ import BalmProofs.Props.C03
 #print axioms Balm.Skip.skip_completion
 #print axioms Balm.Props.C04.plain_history_inv
 #print axioms Balm.Impl.mem_minTrapsIn
+#print axioms Balm.Impl.judgeLeaves_sound
